@@ -71,12 +71,17 @@ def hexDecodeInto (dstLen : Nat) : (i : Nat) → Bytes → Outcome Unit
 def md5Field (val : Bytes) : Outcome Unit :=
   if val.length ≠ 32 then err else hexDecodeInto 16 0 val
 
-/-- the line dispatch of `Header.UnmarshalText` for one line (after the split at '\n'):
-trailing '\r' removed, empty lines skipped, `l[0] != '@' || len(l) < 3`, tag = `l[1:3]`.
-`some tag` = dispatch to the parser of that tag, `none` = nothing to do. -/
-def lineTag (l : Bytes) : Outcome (Option Bytes) :=
-  let l :=
-    if 0 < l.length ∧ l.getLast? = some 13 then l.take (l.length - 1) else l
+/-- `if len(l) > 0 && l[len(l)-1] == '\r' { l = l[:len(l)-1] }` -/
+def stripCRIdx (l : Bytes) : Outcome Bytes :=
+  if 0 < l.length then
+    match indexInt "sam.Header.UnmarshalText:l[len(l)-1]" l ((l.length : Int) - 1) with
+    | ok last => if last = 13 then sliceTo "sam.Header.UnmarshalText:l[:len(l)-1]" l (l.length - 1) else ok l
+    | err => err
+    | .panic s => .panic s
+  else ok l
+
+/-- `if len(l) == 0 { continue }; if l[0] != '@' || len(l) < 3 { return errBadHeader }; copy(t[:], l[1:3])` -/
+def lineTagBody (l : Bytes) : Outcome (Option Bytes) :=
   if l.length = 0 then ok none
   else
     match index "sam.Header.UnmarshalText:l[0]" l 0 with
@@ -89,6 +94,11 @@ def lineTag (l : Bytes) : Outcome (Option Bytes) :=
         | .panic s => .panic s
     | err => err
     | .panic s => .panic s
+
+/-- the line dispatch of `Header.UnmarshalText` for one line (after the split at '\n'):
+trailing '\r' removed, empty lines skipped, `l[0] != '@' || len(l) < 3`, tag = `l[1:3]`.
+`some tag` = dispatch to the parser of that tag, `none` = nothing to do. -/
+def lineTag (l : Bytes) : Outcome (Option Bytes) := stripCRIdx l >>= lineTagBody
 
 /-- the reference table of a Header as far as indexing is concerned: `len(bh.refs)` and `bh.seenRefs` -/
 structure RefTable where
@@ -103,17 +113,19 @@ def lookupName (seen : List (Bytes × Nat)) (name : Bytes) : Option Nat :=
   | some p => some p.2
   | none => none
 
-/-- the end of `referenceLine`, and `Header.AddReference`: a name that is already in `seenRefs` reads
-(and possibly overwrites) `bh.refs[dupID]`; a new name is registered as `len(bh.refs)` and appended.
-`same`/`replaceable` stand for the two `equalRefs` tests, `complete` for `nok && lok`. -/
+/-- the end of `referenceLine` (as of /repo f32ca30: `if !nok || !lok { return errBadHeader }` comes first),
+and `Header.AddReference` (`complete = true`): a name that is already in `seenRefs` reads (and possibly
+overwrites) `bh.refs[dupID]`; a new name is registered as `len(bh.refs)` and appended.
+`same`/`replaceable` stand for the `equalRefs` / length tests, `complete` for `nok && lok`. -/
 def addRef (t : RefTable) (name : Bytes) (same replaceable complete : Bool) : Outcome RefTable :=
-  match lookupName t.seen name with
-  | some dupID =>
-    match index "sam.referenceLine:bh.refs[dupID]" (List.replicate t.nrefs ()) dupID with
-    | ok _ => if same then ok t else if replaceable then ok t else err
-    | err => err
-    | .panic s => .panic s
-  | none =>
-    if complete then ok { nrefs := t.nrefs + 1, seen := (name, t.nrefs) :: t.seen } else err
+  if !complete then err
+  else
+    match lookupName t.seen name with
+    | some dupID =>
+      match index "sam.referenceLine:bh.refs[dupID]" (List.replicate t.nrefs ()) dupID with
+      | ok _ => if same then ok t else if replaceable then ok t else err
+      | err => err
+      | .panic s => .panic s
+    | none => ok { nrefs := t.nrefs + 1, seen := (name, t.nrefs) :: t.seen }
 
 end Hts.Model.Decoders
